@@ -2090,8 +2090,43 @@ func crRuleOnlyForNewline(c *core.Ctx, rule, pkg string) {
 				"the test for a CR in front of the segment delimiter is not guarded by an equality test of the delimiter with \"\\n\": for other delimiters a CR byte at the end of the last element is data and must reach the transform")
 		}
 	}
+	// second anchor: the strip itself, x[:len(x)-utf8.RuneLen('\r')] (the test may be written with another primitive)
+	for _, f := range c.RepoFunctions() {
+		if core.FuncPkg(f) != p.Types {
+			continue
+		}
+		for _, b := range f.Blocks {
+			for _, in := range b.Instrs {
+				sl, ok := in.(*ssa.Slice)
+				if !ok || sl.High == nil {
+					continue
+				}
+				bo, ok := sl.High.(*ssa.BinOp)
+				if !ok || bo.Op != token.SUB {
+					continue
+				}
+				call, ok := bo.Y.(*ssa.Call)
+				if !ok || !core.IsCallTo(call, "unicode/utf8", "RuneLen") || len(call.Call.Args) != 1 {
+					continue
+				}
+				if k, ok := call.Call.Args[0].(*ssa.Const); !ok || k.Value == nil || k.Value.ExactString() != "13" {
+					continue
+				}
+				n++
+				key := core.FuncKey(f) + " CR strip applies under the \"\\n\" delimiter only"
+				good := false
+				for _, ed := range controlDeps(f).controlling(b) {
+					if ifi := ed.ifInstr(); ifi != nil && ed.succ == 0 && isNLEq(ifi.Cond, 0) {
+						good = true
+					}
+				}
+				c.Check(good, rule, key, core.InstrPos(in), "control-dependent on the true edge of `segment delimiter == \"\\n\"`",
+					"the CR in front of the segment delimiter is stripped without an equality test of the delimiter with \"\\n\" on the way: for other delimiters a CR byte at the end of the last element is data")
+			}
+		}
+	}
 	if n == 0 {
-		c.Unresolved(rule, "trailing-CR test", "no bytes.HasSuffix(x, []byte(\"\\r\")) in package "+pkg)
+		c.Unresolved(rule, "trailing-CR rule", "neither a bytes.HasSuffix(x, []byte(\"\\r\")) test nor an x[:len(x)-utf8.RuneLen('\\r')] strip found in package "+pkg)
 	}
 }
 
